@@ -1,5 +1,6 @@
 import RumaModel.Proto
 import RumaModel.Model.Hash
+import RumaModel.Model.EventSign
 import RumaModel.Spec.Hash
 import RumaModel.Spec.EventSign
 import RumaModel.Generated.C05
@@ -27,6 +28,22 @@ def version (s : String) : Option Nat :=
   | some v => if 1 ≤ v ∧ v ≤ 11 then some v else none
   | none => none
 
+/-- `c05.stored`: what `hash_and_sign_event` leaves under `hashes` (the model of C03, run with a
+dummy signature scheme — the `hashes` entry does not depend on the signature). -/
+def storedAnswer (r : Redact.Rules) (ev : Obj) : String :=
+  let S : Sign.SigScheme := { sign := fun _ _ => List.replicate 64 0, verify := fun _ _ _ => true,
+                              pub := fun _ => List.replicate 32 0 }
+  let res := EventSign.hashAndSignEvent S sha256Ref (bs "h.example") ⟨bs "k", bs "1"⟩ ev r
+  match res.1 with
+  | .error .pduSize => "err size"
+  | _ =>
+    match Obj.get res.2 EventSign.hashesKey with
+    | some (.obj hs) =>
+      match Obj.get hs EventSign.sha256Key with
+      | some (.str h) => "ok " ++ ascii h ++ " " ++ toString hs.length
+      | _ => "ok #not-a-string " ++ toString hs.length
+    | _ => "err other"
+
 def handle (toks : List String) : String :=
   match toks with
   -- SPEC side: per-version answers of the specification
@@ -47,6 +64,13 @@ def handle (toks : List String) : String :=
     match parseOne rest with
     | some (.obj ev) => showRes (contentHashB64 sha256Ref ev)
     | _ => "bad-op"
+  | "c05.stored" :: v :: rest =>
+    match version v with
+    | some v =>
+      match implRules v, parseOne rest with
+      | some r, some (.obj ev) => storedAnswer r ev
+      | _, _ => "bad-op"
+    | none => "bad-op"
   | "c05.ref" :: v :: rest =>
     match version v with
     | some v =>
